@@ -84,6 +84,19 @@ def peerStep (peerMax : Nat) (t : PeerTable) (p : Pkt) : Option PeerTable :=
     else if p.topic.isEmpty then (if (peerLookup a t).isSome then some t else none)
     else some ((a, p.topic) :: t.filter (·.1 ≠ a))
 
+/-- the topic a conformant receiver holding table `t` delivers this PUBLISH under -/
+def peerResolve (t : PeerTable) (p : Pkt) : Option (List Nat) :=
+  if !p.topic.isEmpty then some p.topic
+  else match p.alias with
+    | some a => peerLookup a t
+    | none => none
+
+/-- the v5.0 PUBLISH packets of an event list that were requested for sending -/
+def sentPublishes : List Ev → List Pkt
+  | [] => []
+  | .send p _ :: rest => if p.ver = 5 ∧ p.kind = .publish then p :: sentPublishes rest else sentPublishes rest
+  | _ :: rest => sentPublishes rest
+
 def peerStepEvs (peerMax : Nat) : PeerTable → List Ev → Option PeerTable
   | t, [] => some t
   | t, .send p _ :: rest =>
@@ -93,6 +106,29 @@ def peerStepEvs (peerMax : Nat) : PeerTable → List Ev → Option PeerTable
       | none => none
     else peerStepEvs peerMax t rest
   | t, _ :: rest => peerStepEvs peerMax t rest
+
+/-! ## C07 — inbound QoS 2: ghost set of notified PUBLISH whose exchange is still open -/
+
+def isErrorRc : Option Nat → Bool
+  | some c => decide (c ≥ 128)
+  | none => false
+
+/-- fold the events of one call over the set of open (notified, not yet released) inbound QoS 2
+    identifiers; second component: identifiers notified a second time within one exchange.
+    An exchange ends with a delivered PUBREL or with an error PUBREC we sent. -/
+def q2Step : List Nat → List Ev → List Nat × List Nat
+  | o, [] => (o, [])
+  | o, .recv p :: rest =>
+    let id := p.pid.getD 0
+    if p.kind = .publish ∧ p.qos = 2 then
+      let r := q2Step (if o.contains id then o else id :: o) rest
+      (r.1, if o.contains id then id :: r.2 else r.2)
+    else if p.kind = .pubrel then q2Step (o.erase id) rest
+    else q2Step o rest
+  | o, .send p _ :: rest =>
+    if p.kind = .pubrec ∧ isErrorRc p.rc then q2Step (o.erase (p.pid.getD 0)) rest
+    else q2Step o rest
+  | o, _ :: rest => q2Step o rest
 
 /-! ## C08 — released identifiers -/
 
